@@ -1,0 +1,54 @@
+//go:build verif
+
+package iso19794
+
+// Contracts for gvc (contract-based deductive verification, see /verif/DESIGN.md).
+// Comment-only file, compiled only under the build tag "verif".
+//
+// C12: the ISO/IEC 19794-5 facial record parser returns a value or an error for every input: no panic (index, slice,
+// nil, make with a negative or oversized length), loops bounded by the element limits (MaxImages, MaxFacialFeatures),
+// and no allocation larger than the data that is still unread plus a constant.
+
+//@ func parseFeatures
+//@   props C12 C19
+//@   requires r != nil
+//@   ensures (result1 == nil) ==> len(result0) == numFeatures && numFeatures <= 32
+//@   ensures result1 != nil ==> result0 == nil
+//@   ensures "stream-only-shrinks": len(rd(r)) <= old(len(rd(r)))
+//@   ensures fresh(result0)
+//@   assigns r
+//@   loop 1 invariant 0 <= i && i <= numFeatures && numFeatures <= 32 && len(out) == numFeatures && r != nil && len(rd(r)) <= old(len(rd(r)))
+//@   loop 1 decreases numFeatures - i
+//@   allocbound 1024
+//@   safety all
+
+//@ func parseImage
+//@   props C12 C19
+//@   requires r != nil
+//@   ensures (result1 == nil) == (result0 != nil)
+//@   ensures "image-bytes-are-what-the-length-field-says": result1 == nil ==> len(result0.Data) == result0.FacialInformation.Length - 32 - 8 * result0.FacialInformation.NumberOfPoints
+//@   ensures "stream-only-shrinks": 0 <= len(rd(r)) && len(rd(r)) <= old(len(rd(r)))
+//@   proves "image-fits-the-unread-data": result1 == nil ==> imageSize <= old(len(rd(r)))
+//@   allocbound old(len(rd(r))) + 1024
+//@   safety all
+
+//@ func parseImages
+//@   props C12 C19
+//@   requires r != nil
+//@   ensures "every-image-or-error": result1 == nil ==> len(result0) == numImages && numImages <= 4
+//@   ensures result1 != nil ==> result0 == nil
+//@   loop 1 invariant 0 <= i && i <= numImages && numImages <= 4 && len(out) == numImages && r != nil
+//@   loop 1 decreases numImages - i
+//@   safety all
+
+//@ func ProcessISO19794
+//@   props C12 C19
+//@   ensures (result1 == nil) == (result0 != nil)
+//@   ensures "at-most-four-faces": result1 == nil ==> len(result0.Facial.Images) <= 4
+//@   safety all
+
+//@ func (ap ISO19794) Images
+//@   props C12 C19
+//@   ensures "one-image-per-parsed-face": len(result) == len(ap.Facial.Images)
+//@   loop 1 invariant len(out) == len(ap.Facial.Images)
+//@   safety all
